@@ -7,8 +7,14 @@
    fields of Extract.  One NDJSON record per input:
      [id, pk, must, outer : "ok" | "trunc" | "badtype" | "badlen", input : elements, got : "accept"|"reject"|"error:<cls>",
       out : projection of what the decoder returned (aligned with the packet schema; comps for a name),
-      ptr : [dvb, scn, scr, dcr] the SignaturePtrs it returned (TlvModelPackets.Ptrs)]
-   For a mismatch TLC prints <<"V", id, <<tag>>>> with tag = "<want>/<why>/<got>".           *)
+      ptr : [dvb, scn, scr, dcr] the SignaturePtrs it returned (TlvModelPackets.Ptrs),
+      hist : "" | the name of the HISTORY under which the observation was made]
+   For a mismatch TLC prints <<"V", id, <<tag>>>> with tag = "<want>/<why>/<got>".
+   HISTORIES.  The reference machine starts every packet from InitSt: no variable survives a packet, so
+   Expect is a function of (pk, outer, input) alone and never looks at hist.  The harness therefore also
+   records observations made by FRESH interpreters that met their inputs in other orders (hist = "adverse":
+   the mutants first, the well-formed packets last) - a decoder that remembers anything across calls answers
+   differently there.  Such records are judged by the same Expect; their tag is prefixed "history:<hist>|". *)
 EXTENDS TlvModelPackets, Json, IOUtils
 
 Recs == ndJsonDeserialize(IOEnv.JUDGE_IN)
@@ -37,11 +43,13 @@ ExpectPtrs(r) == IF r.pk \in {"interest", "data", "interest2017", "data2017"}
                  ELSE Ptrs("none", <<>>, <<>>)
 \* r.must = "accept": an unmutated hand-written corpus packet; the reference itself must accept it (else the
 \* corpus is dead: nothing below the rejected element would ever be decided)
-Tags(r) == LET e == Expect(r) IN
-           IF r.must = "accept" /\ e.v # "accept" THEN <<"CORPUS-DEAD/" \o e.why \o "/" \o r.got>>
-           ELSE IF e.v # r.got THEN <<e.v \o "/" \o e.why \o "/" \o r.got>>
-           ELSE IF e.v = "accept" /\ e.out # r.out THEN <<e.v \o "/fields-differ/" \o r.got>>
-           ELSE IF e.v = "accept" /\ ~PtrsOk(ExpectPtrs(r), r.ptr) THEN <<e.v \o "/pointers-differ/" \o r.got>>
+Tags(r) == LET e == Expect(r)
+               h == IF r.hist = "" THEN "" ELSE "history:" \o r.hist \o "|"
+           IN
+           IF r.must = "accept" /\ e.v # "accept" THEN <<h \o "CORPUS-DEAD/" \o e.why \o "/" \o r.got>>
+           ELSE IF e.v # r.got THEN <<h \o e.v \o "/" \o e.why \o "/" \o r.got>>
+           ELSE IF e.v = "accept" /\ e.out # r.out THEN <<h \o e.v \o "/fields-differ/" \o r.got>>
+           ELSE IF e.v = "accept" /\ ~PtrsOk(ExpectPtrs(r), r.ptr) THEN <<h \o e.v \o "/pointers-differ/" \o r.got>>
            ELSE <<>>
 
 ASSUME \A i \in 1 .. Len(Recs) :
